@@ -34,6 +34,7 @@ theorem ext_pushToken (cfg : Cfg) (c : Core) (tok : List Byte) : Ext c (pushToke
 theorem ext_pushInteger (c : Core) (tok : List Byte) : Ext c (pushInteger c tok) := by
   unfold pushInteger
   repeat' split
+  all_goals try simp only []
   all_goals first | exact ext_push _ _ | exact ext_fail _ _
 
 theorem ext_pushChar (T : Tables) (c : Core) (tok : List Byte) : Ext c (pushChar T c tok) := by
@@ -99,8 +100,14 @@ theorem ext_plainStep1 (T : Tables) (s : S1) (p : PMode) (b : Byte) : Ext s.core
       · exact ext_refl _
     · exact ext_setBase _ _
     · exact ext_of_code_eq rfl
+    · exact ext_refl _
     · exact ext_fail _ _
     · exact ext_fail _ _
+
+theorem ext_chrStartStep1 (T : Tables) (s : S1) (b : Byte) : Ext s.core (chrStartStep1 T s b).core := by
+  unfold chrStartStep1
+  repeat' split
+  all_goals first | exact ext_refl _ | exact ext_fail _ _
 
 theorem ext_tokStep1 (T : Tables) (cfg : Cfg) (s : S1) (t : TMode) (b : Byte) :
     Ext s.core (tokStep1 T cfg s t b).core := by
@@ -147,6 +154,7 @@ theorem ext_body1 (T : Tables) (cfg : Cfg) (s : S1) (b : Byte) : Ext s.core (bod
   · exact ext_strStep1 T _ _ b
   · exact ext_escStep1 T _ b
   · exact ext_runeStep1 T _ b
+  · exact ext_chrStartStep1 T _ b
 
 theorem ext_step1 (T : Tables) (cfg : Cfg) (s : S1) (b : Byte) : Ext s.core (step1 T cfg s b).core := by
   unfold step1
@@ -181,6 +189,7 @@ theorem ext_finishCore (T : Tables) (cfg : Cfg) (c : Core) (m : Mode) (tok : Lis
   | str m => cases m <;> exact ext_fail _ _
   | esc => exact ext_fail _ _
   | rune => exact ext_fail _ _
+  | chrStart => exact ext_fail _ _
   | plain p => cases p <;> first | exact ext_refl _ | exact ext_fail _ _
 
 
@@ -215,6 +224,7 @@ theorem finishCore_cfg (T : Tables) (cfg cfg' : Cfg) (h1 : cfg.rbase = cfg'.rbas
   | str m => cases m <;> rfl
   | esc => rfl
   | rune => rfl
+  | chrStart => rfl
 
 /-- a halted state only counts bytes, whatever the configuration -/
 theorem run1_halted (T : Tables) (cfg : Cfg) (bs : List Byte) (s : S1) (h : s.core.halt ≠ none) :
